@@ -4,6 +4,7 @@ package beacon
 // disagreement): online oracles at the base-store tap and at the sync wire, plus store scans at the end.
 
 import (
+	"time"
 	"bytes"
 	"context"
 	"fmt"
@@ -228,11 +229,27 @@ func (o *vfbChainOracle) finalScan() {
 			}
 		}
 		if o.c02 && be != "memdb" {
-			o.mu.Lock()
-			head := o.heads[n.pos]
-			o.mu.Unlock()
-			if bs[len(bs)-1].Round != head {
-				run.Violation("C02/persisted-head-differs-from-put-head/"+be, fmt.Sprintf("node %d: persisted head %d, last put %d", n.pos, bs[len(bs)-1].Round, head), o.info())
+			// a Put that committed while the node was being stopped reports its return a moment after the store could be
+			// re-opened: wait for that report (positive signal) before comparing; a Put still pending for exactly the
+			// persisted head is a write whose answer nobody got, which the statement allows either way
+			persisted := bs[len(bs)-1].Round
+			var head uint64
+			inFlight := false
+			for i := 0; i < 300; i++ {
+				o.mu.Lock()
+				head = o.heads[n.pos]
+				pend := o.pending[n.pos]
+				o.mu.Unlock()
+				inFlight = pend != nil && pend.Round == persisted
+				if persisted == head {
+					break
+				}
+				time.Sleep(10 * time.Millisecond)
+			}
+			if persisted != head && inFlight {
+				run.Count("puts_in_flight_at_shutdown_found_persisted", 1)
+			} else if persisted != head {
+				run.Violation("C02/persisted-head-differs-from-put-head/"+be, fmt.Sprintf("node %d: persisted head %d, last put %d", n.pos, persisted, head), o.info())
 			}
 		}
 	}
